@@ -7,12 +7,15 @@ import (
 	"os"
 
 	"verif/harness/core"
+	"verif/harness/drive/labels"
 	"verif/harness/drive/outline"
 	"verif/harness/drive/ph"
 )
 
 func main() {
 	switch os.Getenv("VERIF_EXT") {
+	case "labels":
+		core.Main(core.Driver{ID: "C16", Level: "model_checking", Run: labels.Run, SelfTest: labels.SelfTest})
 	case "ph":
 		core.Main(core.Driver{ID: "C02", Level: "model_checking", Run: ph.Run, Replay: ph.Replay, SelfTest: ph.SelfTest})
 	default:
